@@ -115,8 +115,8 @@ def run_case(case):
         expected = {(r, p): [] for r in range(n) for p in ports}     # (receiver, port) -> list of expectation dicts (in order)
         optional = []          # expectation dicts that may or may not arrive (band / unknown LS outcome)
         pending_ls = {}        # (sender, dest) -> list of expectation dicts buffered behind LS
-        muted_since = {}       # station -> accumulated ms advanced while muted (for pending lookups)
         ls_retries = {}        # (sender,dest) -> retransmissions that happened while dest muted
+        eth.mids = mids
 
         def pump():
             guard = 0
@@ -231,6 +231,7 @@ def run_case(case):
                     else:
                         pending_ls[(s, d)] = [dict(exp_base, nohandler=not has_handler)]
                         ls_retries.setdefault((s, d), 0)
+                        eth.ls_start[(s, d)] = len(eth.lsrep_delivered)
                 elif has_handler:
                     expected[(d, port)].append(dict(exp_base))
             pump()
@@ -283,19 +284,23 @@ def _count_ls_retry(pkt, sender, eth, ls_retries, mids):
 
 
 def _settle_ls(pending_ls, ls_retries, expected, optional, eth, ports, sts, mids):
-    """A pending lookup completes when the sender's router no longer has it pending."""
+    """A pending lookup completes when the ether has handed the sender an LS reply of the sought station (observed on the wire,
+    not read from the router: a router that forgets its pending lookup must not make the model forget the queued requests); it is
+    given up - no verdict for what was queued - once the retransmissions are (nearly) used up and the router has dropped it."""
     from ..stack import make_addr
     for (s, d) in list(pending_ls):
-        entry = sts[s].gn.location_table.get_entry(make_addr(mids[d]))
-        still = entry is not None and entry.ls_pending
-        if still:
-            continue
+        answered = (d, s) in eth.lsrep_delivered[eth.ls_start.get((s, d), 0):]
+        retries = ls_retries.get((s, d), 0)
+        if not answered:
+            entry = sts[s].gn.location_table.get_entry(make_addr(mids[d]))
+            if retries < 9 or (entry is not None and entry.ls_pending):
+                continue
         lst = pending_ls.pop((s, d))
-        retries = ls_retries.pop((s, d), 0)
+        ls_retries.pop((s, d), None)
         for e_ in lst:
             if e_.get("nohandler"):
                 continue
-            if retries >= 9 or d in eth.muted:
+            if retries >= 9 or not answered:
                 optional.append(dict(e_, receiver=d))      # lookup gave up (or close to): no verdict
             elif e_["port"] in ports:
                 expected[(d, e_["port"])].append(e_)
@@ -385,11 +390,22 @@ class MuteEther:
             def __init__(self):
                 super().__init__()
                 self.muted = set()
+                self.mids = []
+                self.lsrep_delivered = []      # (replying station, addressed station) of every LS reply put on the air towards its addressee
+                self.ls_start = {}
 
             def on_send(self, station, packet):
                 self.log.append((station.index, packet))
                 if station.index in self.muted:
                     return
+                try:
+                    p = rc.parse_packet(packet)
+                    if p["common"]["ht"] == rc.HT_LS and p["common"]["hst"] == 1:
+                        so, de = p["ext"]["so"]["addr"][2:], p["ext"]["de"]["addr"][2:]
+                        if so == self.mids[station.index] and de in self.mids and self.mids.index(de) not in self.muted:
+                            self.lsrep_delivered.append((station.index, self.mids.index(de)))
+                except Exception:
+                    pass
                 for r in sorted(self.adj[station.index]):
                     if r not in self.muted:
                         self.queue.append((station.index, r, packet))
